@@ -1,8 +1,13 @@
 package props
 
 import (
+	"bytes"
 	"fmt"
 	"math/big"
+	"os"
+	"os/exec"
+	"path/filepath"
+	"strings"
 	"sync"
 	"sync/atomic"
 	"time"
@@ -354,13 +359,66 @@ func histPermHook(seed uint64, steps int, mode replicaMode) ([]string, int) {
 	return t.Lines, sensitive
 }
 
+// ---- out-of-process replica ----
+
+var c18Hists = []c18History{{"two-chain", histTwoChain}, {"validators", histValidators}, {"oracle", histOracle}, {"l1-world", histL1World}, {"perm-hook", histPermHook}, {"oracle-clock", histOracleClock}}
+
+// C18Child is the entry point of the child process: it runs one history and writes its transcript to out.
+func C18Child(name string, seed uint64, steps, modeIdx int, anchor int64, out string) error {
+	c18WallAnchor.Store(anchor)
+	for _, h := range c18Hists {
+		if h.name == name {
+			lines, _ := h.f(seed, steps, modeOf(modeIdx))
+			return os.WriteFile(out, []byte(strings.Join(lines, "\x00")), 0o644)
+		}
+	}
+	return fmt.Errorf("no such history %q", name)
+}
+
+type c18Child struct {
+	cmd *exec.Cmd
+	out string
+	log *bytes.Buffer
+}
+
+func startC18Child(name string, seed uint64, steps, modeIdx int, anchor int64) *c18Child {
+	dir := filepath.Join(verifDir(), ".work", "c18")
+	_ = os.MkdirAll(dir, 0o755)
+	out := filepath.Join(dir, fmt.Sprintf("replica-%d-%s-%d.txt", os.Getpid(), name, seed))
+	cmd := exec.Command(os.Args[0], "__c18replica__", name, fmt.Sprint(seed), fmt.Sprint(steps), fmt.Sprint(modeIdx), fmt.Sprint(anchor), out)
+	zone := []string{"Asia/Tokyo", "America/New_York", "Asia/Kathmandu"}[modeIdx%3]
+	cmd.Env = append(os.Environ(), "TZ="+zone, fmt.Sprintf("GOMAXPROCS=%d", 1+modeIdx%2))
+	c := &c18Child{cmd: cmd, out: out, log: &bytes.Buffer{}}
+	cmd.Stdout, cmd.Stderr = c.log, c.log
+	if err := cmd.Start(); err != nil {
+		c.cmd = nil
+		c.log.WriteString(err.Error())
+	}
+	return c
+}
+
+func (c *c18Child) wait() ([]string, error) {
+	if c.cmd == nil {
+		return nil, fmt.Errorf("start failed: %s", c.log.String())
+	}
+	defer os.Remove(c.out)
+	if err := c.cmd.Wait(); err != nil {
+		return nil, fmt.Errorf("%v: %s", err, trunc(c.log.String(), 2000))
+	}
+	bz, err := os.ReadFile(c.out)
+	if err != nil {
+		return nil, err
+	}
+	return strings.Split(string(bz), "\x00"), nil
+}
+
 func checkC18(run *mon.Run, rng *mon.Rand, thorough bool) {
-	run.Rule = "N fresh replicas (4 quick, 16 thorough) execute the same seeded history - half of them one after the other, half concurrently in their own goroutines (thorough tier under the race detector) - and the complete transcripts (every response, full error string, gas, event list in order, validator-update lists in order, store digest after every block, genesis exports) are compared line by line with replica 0. Each replica is an independent draw of Go's randomised map iteration orders and runs at a different wall-clock time; the sequential ones run in different process time zones. Histories: two-chain bridge traffic with multi-message transactions, validator bursts with >=3 removals per block and executor-change plans, 7-validator x 6-pair oracle updates, 4-bridge L1 world with export/re-import. Distinct non-trivial = (history kind, seed) whose transcripts contained order-sensitive steps on all replicas"
+	run.Rule = "N fresh replicas (4 quick, 16 thorough) execute the same seeded history - half of them one after the other, half concurrently in their own goroutines (thorough tier under the race detector) - and the complete transcripts (every response, full error string, gas, event list in order, validator-update lists in order, store digest after every block, genesis exports) are compared line by line with replica 0. Each replica is an independent draw of Go's randomised map iteration orders and runs at a different wall-clock time; one further replica per history runs in a process of its own with TZ=Asia/Tokyo, America/New_York or Asia/Kathmandu (embedded tzdata) and GOMAXPROCS 1 or 2. Histories: two-chain bridge traffic with multi-message transactions, validator bursts with >=3 removals per block and executor-change plans, 7-validator x 6-pair oracle updates, 4-bridge L1 world with export/re-import. Distinct non-trivial = (history kind, seed) whose transcripts contained order-sensitive steps on all replicas"
 	run.Assumptions = []string{"an unsorted 3-element map iteration is caught with probability 1-(1/6)^(N-1) per order-sensitive step", "telemetry timers are not state", "the harness itself is deterministic given the seed (checked implicitly: any harness nondeterminism would also show up as a mismatch)"}
-	for _, c := range []string{"C18.replicas_identical", "C18.concurrent_replicas_identical"} {
+	for _, c := range []string{"C18.replicas_identical", "C18.concurrent_replicas_identical", "C18.other_process_replica_identical"} {
 		run.Declare(c, 4)
 	}
-	hists := []c18History{{"two-chain", histTwoChain}, {"validators", histValidators}, {"oracle", histOracle}, {"l1-world", histL1World}, {"perm-hook", histPermHook}, {"oracle-clock", histOracleClock}}
+	hists := c18Hists
 	N := pick(thorough, 4, 16)
 	seeds := pick(thorough, 2, 3)
 	steps := pick(thorough, 150, 200)
@@ -371,19 +429,17 @@ func checkC18(run *mon.Run, rng *mon.Rand, thorough bool) {
 			transcripts := make([][]string, N)
 			sens := make([]int, N)
 			c18WallAnchor.Store(time.Now().UnixNano())
-			// first half sequentially, each replica's process in another time zone (the zone is process-wide state, so it
-			// is only varied while no other replica is running)
-			origLocal := time.Local
-			zones := []*time.Location{time.UTC, time.FixedZone("east", 9*3600), time.FixedZone("west", -5*3600), time.FixedZone("odd", 5*3600+45*60)}
+			// one more replica runs in a process of its own (another time zone, another GOMAXPROCS, another address space),
+			// started now so that it overlaps with the in-process replicas
+			child := startC18Child(h.name, seed, steps, N+k, c18WallAnchor.Load())
+			// first half sequentially
 			for i := 0; i < N/2; i++ {
-				time.Local = zones[i%len(zones)]
 				if h.name == "oracle-clock" && i > 0 {
 					time.Sleep(800 * time.Millisecond) // workload spacing only; no verdict depends on it
 				}
 				transcripts[i], sens[i] = h.f(seed, steps, modeOf(i))
 				run.Evaluations++
 			}
-			time.Local = origLocal
 			// second half concurrently
 			var wg sync.WaitGroup
 			for i := N / 2; i < N; i++ {
@@ -395,7 +451,13 @@ func checkC18(run *mon.Run, rng *mon.Rand, thorough bool) {
 			}
 			wg.Wait()
 			run.Evaluations += N - N/2
-			for i := 1; i < N; i++ {
+			if lines, err := child.wait(); err != nil {
+				panic(fmt.Sprintf("the out-of-process replica of history %s could not be run: %v", h.name, err)) // INCONCLUSIVE
+			} else {
+				transcripts = append(transcripts, lines)
+				run.Evaluations++
+			}
+			for i := 1; i < len(transcripts); i++ {
 				same, at := len(transcripts[i]) == len(transcripts[0]), -1
 				for j := 0; j < minInt(len(transcripts[i]), len(transcripts[0])); j++ {
 					if transcripts[i][j] != transcripts[0][j] {
@@ -406,6 +468,9 @@ func checkC18(run *mon.Run, rng *mon.Rand, thorough bool) {
 				clause := "C18.replicas_identical"
 				if i >= N/2 {
 					clause = "C18.concurrent_replicas_identical"
+				}
+				if i == N {
+					clause = "C18.other_process_replica_identical"
 				}
 				detail := ""
 				if at >= 0 {
